@@ -270,3 +270,19 @@ Proof.
   - intros H. apply all_pairs_ok_iff in H. vm_compute in H. discriminate.
   - reflexivity.
 Qed.
+
+(** The same dependence on the order exists in Union mode (service names): a: f(x: Int), b: f(x: Int!), c: f().
+    Folded a,b,c the union fails (x is NON_NULL after a+b and c lacks it); folded a,c,b it succeeds.  The pair b,c is
+    incompatible, so the guarded fold refuses both orders.  (corpus/C09/order-dependent-error-union.json) *)
+Definition uord_a : schema := [sc_int; query_of [mk_field "f" INT [mk_ifield "x" INT]]].
+Definition uord_b : schema := [sc_int; query_of [mk_field "f" INT [mk_ifield "x" (TNonNull INT)]]].
+Definition uord_c : schema := [sc_int; query_of [mk_field "f" INT []]].
+
+Theorem union_error_depends_on_order : exists a b c m,
+  wf_schema a = true /\ wf_schema b = true /\ wf_schema c = true /\
+  merge_slice Union [a; c; b] = Some m /\ merge_slice Union [a; b; c] = None /\
+  merge_slice_checked Union [a; c; b] = None /\ merge_slice_checked Union [a; b; c] = None.
+Proof.
+  exists uord_a, uord_b, uord_c, [query_of [mk_field "f" INT [mk_ifield "x" (TNonNull INT)]]; sc_int].
+  vm_compute. repeat split; reflexivity.
+Qed.
